@@ -83,6 +83,7 @@ func c11Check(cs []tcue) string { return c11Check2(cs, false) }
 func c11Check2(cs []tcue, warm bool) string {
 	sub := astisub.NewSubtitles()
 	snaps := make([]string, len(cs))
+	rollup := map[string][]astisub.Line{} // first row -> the rows shared by the cues that begin with it
 	for k, c := range cs {
 		it := textItem(time.Duration(c.S), time.Duration(c.E), c.T)
 		if c.T == "" {
@@ -97,10 +98,26 @@ func c11Check2(cs []tcue, warm bool) string {
 		}
 		if strings.Contains(c.T, "\n") {
 			// a multi-line cue (roll-up captions share their first lines)
-			it.Lines = nil
-			for _, l := range strings.Split(c.T, "\n") {
-				it.Lines = append(it.Lines, astisub.Line{Items: []astisub.LineItem{{Text: l}}})
+			// the rows of roll-up captions share one backing array, each cue showing a longer prefix of it
+			parts := strings.Split(c.T, "\n")
+			arr := rollup[parts[0]]
+			ok := true
+			for i := 0; i < len(parts) && i < len(arr); i++ {
+				ok = ok && len(arr[i].Items) == 1 && arr[i].Items[0].Text == parts[i]
 			}
+			if !ok {
+				arr = nil // not a longer or shorter version of the rows seen so far: rows of its own
+			}
+			if arr == nil {
+				arr = make([]astisub.Line, 0, 8)
+			}
+			for i := len(arr); i < len(parts); i++ {
+				arr = append(arr, astisub.Line{Items: []astisub.LineItem{{Text: parts[i]}}})
+			}
+			if ok {
+				rollup[parts[0]] = arr
+			}
+			it.Lines = arr[:len(parts)]
 		}
 		decorate(it, k)
 		it.Index = k
@@ -114,7 +131,9 @@ func c11Check2(cs []tcue, warm bool) string {
 			it.Region, it.Style = c11Region, c11Style
 		}
 		sub.Items = append(sub.Items, it)
-		snaps[k] = snapItem(it)
+	}
+	for k, it := range sub.Items {
+		snaps[k] = snapItem(it) // (once the list is complete: cues that share rows share what decorates them)
 	}
 	ptrs := append([]*astisub.Item(nil), sub.Items...)
 	someMetadata(sub, len(cs))
